@@ -23,6 +23,8 @@ prop('T02', units=['lru'], assumptions=[A_VERUS, A_EXTRACT], not_covered=[], rep
 
 prop('T03', units=['cache'], assumptions=[A_VERUS, A_EXTRACT], not_covered=[], replay=None)
 
+prop('T04', units=['ptr'], assumptions=[A_VERUS, A_EXTRACT], not_covered=[], replay=None)
+
 
 def proved_includes(root):
     """set of inc/*.rs files that some unit template includes non-assumed"""
